@@ -66,7 +66,7 @@ func (c07) Budget(tier string) runner.Budget {
 
 func (c07) Describe() runner.Description {
 	return runner.Description{
-		Rule: "each plan: 2..6 honestly signed transactions (native with harness keys; EIP-155 wrapped Ethereum transactions for this chain id) and 10..60 deliveries, each either intact or tampered by exactly one mutation: substitution of one authenticated field (source, target, type, data, extra data, nonce, chain id, time, declared hash - with or without the tamperer recomputing the hash), signature r/s/v bit flips, signature spliced from another honest transaction, one bit flipped anywhere in the marshalled bytes (when it still parses); for wrapped transactions additionally outer-field substitutions, bit flips in the RLP payload, and inner re-encodings (to/nonce/value/gas/data/chain id changed under the original signature; unrecoverable signatures and other-chain signatures declaring the zero address as sender). Ingress paths: peer-to-peer TransactionGotMsg bytes, client write topic, queued write handler (both branches). Exact oracle at quiescence: every pending transaction equals an honestly signed one on all authenticated fields; every honest transaction delivered intact is pending. distinct_nontrivial = distinct (ingress path, mutation kind, tx form, rehash) tuples exercised.",
+		Rule: "each plan: 2..6 honestly signed transactions (native with harness keys; EIP-155 wrapped Ethereum transactions for this chain id) and 10..60 deliveries, each either intact or tampered by exactly one mutation: substitution of one authenticated field (source, target, type, data, extra data, nonce, chain id, time, declared hash - with or without the tamperer recomputing the hash), signature r/s/v bit flips, signature spliced from another honest transaction, one bit flipped anywhere in the marshalled bytes (when it still parses); for wrapped transactions additionally outer-field substitutions, bit flips in the RLP payload, and inner re-encodings (to/nonce/value/gas/data/chain id changed under the original signature; unrecoverable signatures and other-chain signatures declaring the zero address as sender). Ingress paths: peer-to-peer TransactionGotMsg bytes (as envelope, or inside a gateway frame of every accepted method), client write topic, queued write handler (both branches). Exact oracle at quiescence: every pending transaction equals an honestly signed one on all authenticated fields; every honest transaction delivered intact is pending. distinct_nontrivial = distinct (ingress path, mutation kind, tx form, rehash) tuples exercised.",
 		Assumptions: []string{"unauthenticated fields (request id, socket id, sub-transactions) are not mutated"},
 		Real:        []string{"service.VerifyTransaction (hash, chain id, signature, EIP-155 path, compareTx)", "common secp256k1 sign/recover", "eth_tx (RLP, EIP-155 signer, ConvertTx)", "network receive path (envelope + transaction codecs)", "core game executor ingress handlers", "notify bus fan-out under the simulated scheduler"},
 		Stub:        []string{"websocket gate (bytes are injected at handleMessage)", "ConsensusHelper"},
@@ -448,7 +448,18 @@ func (c07) Exec(raw json.RawMessage, st *simrt.Stats, log *simrt.Log) *simrt.Vio
 					continue
 				}
 				env, _ := network.SimMarshalMessage(network.Message{Code: network.TransactionGotMsg, Body: body})
-				network.SimDeliver(env, "peer-7")
+				if d.Arg%2 == 0 {
+					network.SimDeliver(env, "peer-7")
+				} else {
+					// as a websocket frame relayed by the gateway (send / broadcast / group / to-manager method)
+					methods := network.SimMethods()
+					mi := (d.Arg / 2) % 4
+					fb := env
+					if mi == 3 {
+						fb = append(make([]byte, 32), env...)
+					}
+					network.SimFrame(network.SimFrameFor(methods[mi], 7, fb))
+				}
 			case "client":
 				notify.BUS.Publish(notify.ClientTransactionWrite, &notify.ClientTransactionMessage{Tx: *tx, UserId: "u", Nonce: 0, GateNonce: 0})
 			case "runwrite0":
